@@ -23,7 +23,7 @@ Inductive tcall :=
 | TGet (k : N) (h : hb)
 | TSet (k : N) (v : option N) (h : hb)
 | TAbort
-| TCommit.
+| TCommit (cancelled : bool).   (* Commit(ctx); cancelled: the caller's ctx is already cancelled *)
 
 Inductive rerr := RNone | RNotExist | RCanceled | RHandler.
 
@@ -83,11 +83,12 @@ Definition tstep (which : impl) (t : tstate) (c : tcall) : tstate * cres * optio
       let e := if handler_err h then RHandler else RNone in
       (push t1 (mkRes id None e) (t_store t1), CNone, Some id)
   | TAbort => (release which t, CNone, None)
-  | TCommit =>
+  | TCommit cc =>
     match which with
-    | MemTxn => (release which t, CResults (t_results t), None)
+    | MemTxn => (release which t, CResults (t_results t), None)   (* the mem transaction does not consult ctx *)
     | SerialTxn =>
-      if t_done t then (t, CErr, None)
+      (* abortErr(u.ctx, ctx): either context cancelled => error, nothing else happens *)
+      if t_done t || cc then (t, CErr, None)
       else (release which t, CResults (t_results t), None)
     end
   end.
